@@ -35,6 +35,11 @@ M = [
  ('C06-m7', 'C06', 'cedar-policy/src/proto/ast.rs', '                ast::Expr::ite(\n                    ast::Expr::try_from(test_expr)?,\n                    ast::Expr::try_from(then_expr)?,\n                    ast::Expr::try_from(else_expr)?,', '                ast::Expr::ite(\n                    ast::Expr::try_from(test_expr)?,\n                    ast::Expr::try_from(else_expr)?,\n                    ast::Expr::try_from(then_expr)?,'),
  ('C06-m8', 'C06', 'cedar-policy/src/proto/policy.rs', '            ast::PrincipalConstraint::try_from(\n                v.principal_constraint\n                    .ok_or_else(|| ProtobufConversionError::missing("principal_constraint"))?,', '            ast::PrincipalConstraint::try_from(\n                v.resource_constraint.clone()\n                    .ok_or_else(|| ProtobufConversionError::missing("principal_constraint"))?,'),
  ('C06-m9', 'C06', 'cedar-policy/src/proto/policy.rs', '            resource_euid: v\n                .env()\n                .get(&ast::SlotId::resource())', '            resource_euid: v\n                .env()\n                .get(&ast::SlotId::principal())'),
+ ('C17-m1', 'C17', CORE + 'validator/entity_manifest.rs', '            if matches!(op, BinaryOp::In) {', '            if false && matches!(op, BinaryOp::In) {'),
+ ('C17-m2', 'C17', CORE + 'validator/entity_manifest.rs', '            .union(entity_manifest_from_expr(then_expr)?)\n            .union(entity_manifest_from_expr(else_expr)?)),', '            .union(entity_manifest_from_expr(then_expr)?)),'),
+ ('C17-m3', 'C17', CORE + 'validator/entity_manifest.rs', '        ExprKind::HasAttr { expr, attr } => Ok(entity_manifest_from_expr(expr)?\n            .get_or_has_attr(attr)\n            .empty_paths()),', '        ExprKind::HasAttr { expr, attr: _ } => Ok(entity_manifest_from_expr(expr)?\n            .empty_paths()),'),
+ ('C17-m4', 'C17', CORE + 'validator/entity_manifest/analysis.rs', '        self.global_trie = self.global_trie.union(other.global_trie);\n        self.resulting_paths = WrappedAccessPaths::Union(', '        self.resulting_paths = WrappedAccessPaths::Union('),
+ ('C17-m5', 'C17', CORE + 'validator/entity_manifest.rs', '                .union(arg2_res.full_type_required(ty2))', '                .union(arg2_res)'),
  ('C15-m1', 'C15', CORE + 'batched_evaluator.rs', '            if !entities.contains_entity(&uid) {\n                to_load.insert(uid);\n            }', '            if !entities.contains_entity(&uid) && to_load.is_empty() {\n                to_load.insert(uid);\n            }'),
  ('C15-m2', 'C15', CORE + 'batched_evaluator.rs', '    for _i in 0..max_iters {', '    for _i in 0..=max_iters {'),
  ('C15-m3', 'C15', CORE + 'batched_evaluator.rs', '                None => {\n                    entities.add_entity_trusted(', '                None if false => {\n                    entities.add_entity_trusted('),
